@@ -835,7 +835,7 @@ def run_entrypoints(ctx, dims):
         ctx.case(case, nontrivial=True)
         ctx.count("kind:entrypoint")
         if got != want:
-            ctx.oracle_fail("C14:entrypoint:" + dim.split(":")[-1].split("(")[0],
+            ctx.oracle_fail("C14:entrypoint:" + case.get("entry", dim),
                             f"{what}: got {got!r}, reference {want!r}", case)
 
     def guarded(fn):
